@@ -145,6 +145,14 @@ def run(tier: str, seed: int) -> int:
                     continue
                 if rs != ms or rd != md:
                     res.mismatches.append({"op": "update", "case": case, "impl": common_short([rs, rd]), "model": common_short([ms, md])})
+                # validation of the writer model behind C16_dfu_file / C16_storage_file (IHexWrite.lean): the characters of the file are those the
+                # model of the third-party writer produces for the image.  Counted in the evidence; the property is judged on the image, so a
+                # different but equivalent file layout is not a violation
+                if size <= 70000:
+                    for which, text_, img_ in (("dfu", impl["ok"][1], rd["ok"]), ("storage", impl["ok"][0], rs["ok"])):
+                        if len(img_) == 1:
+                            wt = drv.call({"op": "ihex.write", "address": img_[0][0], "data": img_[0][1]})
+                            res.count("writer-model:" + which + ":" + ("same-text" if wt.get("ok") == text_ else "other-text"))
                 c = drv.call({"op": "update.check", "uci": uci, "dfu": dfu, "size": size, "caches": caches,
                               "envelope": env.hex(), "storage": rs["ok"], "dfuimg": rd["ok"]})
                 if not c["ok"]:
